@@ -53,8 +53,10 @@ CHECKS["C06"] = dict(
           "goes backwards, final = last, channels present iff created, GetByID == listing; channels persisted in a cleanup status must terminate with exactly "
           "one cleanup after restart; states returned by queries must already be in the write log. Non-trivial = history with > 4 writes; distinct = set "
           "of statuses reached + number of channels."),
-    parts=[dict(test="TestC06Crash", quick=48, thorough=1600, per_shard=3)],
-    floors=dict(any={"TestC06Crash.crash_points": 500, "TestC06Crash.cleanup_resumed": 5, "TestC06Crash.queries": 50}),
+    parts=[dict(test="TestC06Crash", quick=48, thorough=1600, per_shard=3),
+           dict(test="TestC06Mgr", quick=24, thorough=480, per_shard=3)],  # manager level: RestartDataTransferChannel at every crash point
+    floors=dict(any={"TestC06Crash.crash_points": 500, "TestC06Crash.cleanup_resumed": 5, "TestC06Crash.queries": 50, "TestC06Crash.stalled_write_queries": 50,
+                     "TestC06Mgr.crash_points": 150, "TestC06Mgr.cleanup_resumed": 20}),
     assumptions=["a single datastore Put is atomic (torn writes inside one Put are out of scope)"],
 )
 
@@ -205,7 +207,7 @@ CHECKS["C16"] = dict(
           "tracking after cleanup, persistence options exist exactly for live channels with a store. distinct = per-channel (requester, #requests, cleaned, store) shape."),
     parts=[dict(test="TestC16Route", quick=200, thorough=12000, per_shard=25)],
     floors=dict(any={"TestC16Route.callbacks": 4000, "TestC16Route.cleanups": 60, "TestC16Route.restarts": 200, "TestC16Route.role_confused": 150,
-                     "TestC16Route.offwire_blocks": 80, "TestC16Route.foreign_requests": 150, "TestC16Route.completions": 100}),
+                     "TestC16Route.offwire_blocks": 80, "TestC16Route.refused_opens": 20, "TestC16Route.foreign_requests": 150, "TestC16Route.completions": 100}),
     assumptions=["the graphsync double runs the outgoing-request hook before Request returns, as go-graphsync v0.18 does"],
 )
 
